@@ -2,6 +2,7 @@
   C05 — ITS outbound transfers conserve value and emit a faithful cross-chain message.
 -/
 import Axelar.Proofs.ItsEvents
+import Axelar.Proofs.ItsLedger
 namespace Axelar.Props.C05
 open Axelar Axelar.ItsW Axelar.Its Codec
 
@@ -188,6 +189,214 @@ theorem outbound_message_events (C : Crypto) (cx : ICtx) (tid src chain addr : B
             simp only [hev]
     · simp [hp] at h
   · simp [ha] at h
+
+/-! ### Value conservation of a whole outbound transfer, every payment shape and gas token -/
+
+/-- the transmission part moves exactly the gas value (in the gas token — EGLD or an ESDT) from
+    the service to the gas service, and nothing else -/
+theorem transmit_moves_exactly_the_gas (C : Crypto) (cx : ICtx) (tid src chain addr : Bytes) (tg : TransferAndGas)
+    (data : Bytes) (t t' : Tx)
+    (hkgs : t.w.kind t.w.its.gasService = some .gasService) (hkgw : t.w.kind t.w.its.gateway = some .gateway)
+    (h : transmitInterchainTransfer C cx tid src chain addr tg data t = some ((), t')) :
+    World.Led t.w t'.w (World.pt cx.self tg.gasToken tg.gasAmount) (World.pt t.w.its.gasService tg.gasToken tg.gasAmount) := by
+  simp only [transmitInterchainTransfer, run_bind, run_require] at h
+  by_cases ha : (!addr.isEmpty) = true
+  · simp only [ha, if_true] at h
+    by_cases hp : decide (tg.transferAmount > 0) = true
+    · simp only [hp, if_true] at h
+      cases he : Abi.Transfer.encode ⟨Generated.MESSAGE_TYPE_INTERCHAIN_TRANSFER, tid, src, addr, tg.transferAmount, data⟩ with
+      | error e => simp [he] at h
+      | ok payload =>
+        simp only [he, run_bind] at h
+        cases hr : routeMessage C cx chain payload tg.gasToken tg.gasAmount t with
+        | none => simp [hr] at h
+        | some r =>
+          obtain ⟨u, t1⟩ := r
+          simp only [hr, run_emit, Option.some.injEq, Prod.mk.injEq, true_and] at h
+          subst h
+          simp only [routeMessage, run_bind, run_getI] at hr
+          cases hg : getCallParams t.w.its chain payload with
+          | none => simp [hg] at hr
+          | some v =>
+            obtain ⟨dc, da, p⟩ := v
+            simp only [hg] at hr
+            exact (callContract_led C cx dc da p tg.gasToken tg.gasAmount t t1 hkgs hkgw hr).1
+    · simp [hp] at h
+  · simp [ha] at h
+
+/-- **Outbound conservation, exactly.**  A successful `interchainTransfer` /
+    `callContractWithInterchainToken` body changes the balances of ALL accounts in ALL assets in
+    exactly this way: the service hands the transfer amount of the transfer token to the manager
+    of the token id (which keeps it when it is lock/unlock and burns it when it is mint/burn:
+    `takeIn`), and the gas value of the gas token to the gas service.  The split `tg` is the one
+    `split_shapes` characterises; the transfer token is the token recorded by the manager (so a
+    payment in any other token fails).  Nothing else moves. -/
+theorem outbound_transfer_ledger (C : Crypto) (cx : ICtx) (tid chain addr : Bytes) (data : Option Bytes) (gas : Nat) (t t' : Tx)
+    (tm : Bytes) (st : TokenManager.State) (htm : t.w.its.tmAddress tid = tm) (hst : t.w.tms tm = st)
+    (hktm : t.w.kind tm = some .tokenManager)
+    (hkgs : t.w.kind t.w.its.gasService = some .gasService) (hkgw : t.w.kind t.w.its.gateway = some .gateway)
+    (h : interchainTransfer C cx tid chain addr data gas t = some ((), t')) :
+    ∃ tg, getTransferAndGasTokens cx.egld cx.esdt gas = some tg ∧ cx.self = st.service ∧
+      tg.transferToken = TokenManager.tokOfBytes st.tokenIdentifier ∧
+      World.Led t.w t'.w
+        (World.plus (World.pt cx.self tg.transferToken tg.transferAmount) (World.pt cx.self tg.gasToken tg.gasAmount))
+        (World.plus (takeIn st tm tg.transferAmount) (World.pt t.w.its.gasService tg.gasToken tg.gasAmount)) := by
+  simp only [interchainTransfer, run_bind, requireNotPaused_run] at h
+  cases hpz : t.w.its.paused
+  · simp only [hpz, Bool.false_eq_true, if_false] at h
+    cases hsplit : getTransferAndGasTokens cx.egld cx.esdt gas with
+    | none => simp [hsplit] at h
+    | some tg =>
+      simp only [hsplit, run_bind] at h
+      cases htk : tmTakeToken C cx tid tg.transferToken tg.transferAmount t with
+      | none => simp [htk] at h
+      | some r =>
+        obtain ⟨u, t1⟩ := r
+        cases u
+        simp only [htk] at h
+        obtain ⟨hsvc, htok, hl1, hkind1⟩ := tmTakeToken_led C cx tid tg.transferToken tg.transferAmount t t1 tm st htm hst hktm htk
+        have hits1 := tmTakeToken_keeps_its C cx tid tg.transferToken tg.transferAmount t t1 htk
+        have hkgs1 : t1.w.kind t1.w.its.gasService = some .gasService := by rw [hits1, hkind1]; exact hkgs
+        have hkgw1 : t1.w.kind t1.w.its.gateway = some .gateway := by rw [hits1, hkind1]; exact hkgw
+        cases data with
+        | none => simp at h
+        | some data =>
+          have hl2 := transmit_moves_exactly_the_gas C cx tid cx.caller chain addr tg data t1 t' hkgs1 hkgw1 h
+          rw [hits1] at hl2
+          exact ⟨tg, rfl, hsvc, htok, hl1.trans hl2⟩
+  · simp [hpz] at h
+
+/-- the endpoint on raw arguments is the body above (extraction of the dispatcher branch) -/
+theorem call_interchainTransfer (C : Crypto) (cx : ICtx) (tid chain addr md gas : Bytes) :
+    ItsW.call C cx "interchainTransfer" [tid, chain, addr, md, gas] =
+      (do let _ ← getI
+          if tid.length != 32 then fail else
+          unit (interchainTransfer C cx tid chain addr (decodeMetadata md) (topBig gas))) := rfl
+
+/-- **The whole transaction.**  A successful `interchainTransfer` transaction by `sender` carrying
+    the payment `(egld, esdt)`: the sender loses exactly the attached payments (`payAmt`), the
+    service receives them and hands out exactly the transfer amount (to the token manager:
+    custody or burn) and the gas value (to the gas service) — for every account and asset. -/
+theorem outbound_transaction_ledger (C : Crypto) (w w' : World) (sender its tid chain addr md gasB : Bytes)
+    (egld : Nat) (esdt : List (Bytes × Nat × Nat)) (rs : List Bytes) (evs : List Event) (pd : List PendDesc)
+    (tm : Bytes) (st : TokenManager.State) (htm : w.its.tmAddress tid = tm) (hst : w.tms tm = st)
+    (hk : w.kind its = some .its) (hktm : w.kind tm = some .tokenManager)
+    (hkgs : w.kind w.its.gasService = some .gasService) (hkgw : w.kind w.its.gateway = some .gateway)
+    (h : World.tx C w sender its "interchainTransfer" egld esdt [tid, chain, addr, md, gasB] = (w', .ok rs evs pd)) :
+    ∃ tg, getTransferAndGasTokens egld esdt (topBig gasB) = some tg ∧ its = st.service ∧
+      tg.transferToken = TokenManager.tokOfBytes st.tokenIdentifier ∧
+      World.Led w w'
+        (World.plus (fun x k => if x = sender then World.payAmt egld esdt k else 0)
+          (World.plus (World.pt its tg.transferToken tg.transferAmount) (World.pt its tg.gasToken tg.gasAmount)))
+        (World.plus (fun x k => if x = its then World.payAmt egld esdt k else 0)
+          (World.plus (takeIn st tm tg.transferAmount) (World.pt w.its.gasService tg.gasToken tg.gasAmount))) := by
+  unfold World.tx at h
+  cases hp : World.pay w sender its egld esdt with
+  | none => simp [hp] at h
+  | some w1 =>
+    simp only [hp, hk] at h
+    have hb := World.pay_bal _ _ _ _ _ _ hp
+    have hl0 := World.led_pay _ _ _ _ _ _ hp
+    cases hc : World.callContract C w1 sender its "interchainTransfer" egld esdt [tid, chain, addr, md, gasB] with
+    | none => simp [hc] at h
+    | some r =>
+      obtain ⟨w2, rs2, evs2, pd2⟩ := r
+      simp only [hc, Prod.mk.injEq] at h
+      obtain ⟨rfl, _⟩ := h
+      unfold World.callContract at hc
+      rw [hb.kind, hk] at hc
+      simp only [World.runIts] at hc
+      cases hr : ItsW.call C (World.itsCtx w1 sender its egld esdt) "interchainTransfer" [tid, chain, addr, md, gasB] { w := w1 } with
+      | none => simp [hr] at hc
+      | some v =>
+        obtain ⟨a, tt⟩ := v
+        simp only [hr, Option.some.injEq, Prod.mk.injEq] at hc
+        obtain ⟨rfl, _, _, _⟩ := hc
+        rw [call_interchainTransfer] at hr
+        simp only [run_bind, run_getI] at hr
+        by_cases hlen : (tid.length != 32) = true
+        · simp [hlen] at hr
+        · simp only [hlen, Bool.false_eq_true, if_false, ItsW.unit, run_bind] at hr
+          cases hi : interchainTransfer C (World.itsCtx w1 sender its egld esdt) tid chain addr (decodeMetadata md) (topBig gasB) { w := w1 } with
+          | none => simp [hi] at hr
+          | some q =>
+            obtain ⟨u, t2⟩ := q
+            cases u
+            simp only [hi, run_pure, Option.some.injEq, Prod.mk.injEq] at hr
+            obtain ⟨_, rfl⟩ := hr
+            have htm1 : w1.its.tmAddress tid = tm := by rw [hb.its]; exact htm
+            have hst1 : w1.tms tm = st := by rw [hb.tms]; exact hst
+            obtain ⟨tg, hsplit, hsvc, htok, hl⟩ := outbound_transfer_ledger C (World.itsCtx w1 sender its egld esdt) tid chain addr
+              (decodeMetadata md) (topBig gasB) { w := w1 } t2 tm st htm1 hst1
+              (by show w1.kind tm = _; rw [hb.kind]; exact hktm)
+              (by show w1.kind w1.its.gasService = _; rw [hb.kind, hb.its]; exact hkgs)
+              (by show w1.kind w1.its.gateway = _; rw [hb.kind, hb.its]; exact hkgw) hi
+            refine ⟨tg, hsplit, hsvc, htok, ?_⟩
+            have hl' : World.Led w1 t2.w
+                (World.plus (World.pt its tg.transferToken tg.transferAmount) (World.pt its tg.gasToken tg.gasAmount))
+                (World.plus (takeIn st tm tg.transferAmount) (World.pt w.its.gasService tg.gasToken tg.gasAmount)) := by
+              have := hl
+              simp only [World.itsCtx, hb.its] at this
+              exact this
+            exact hl0.trans hl'
+
+/-- what was attached is exactly transfer amount + gas value, asset by asset (a transaction
+    carries EGLD or ESDT payments, not both; the EGLD-as-ESDT gas shape is excluded here because
+    the debug VM — and therefore the model — keeps `EGLD-000000` and native EGLD apart, which
+    the protocol does not) -/
+theorem payment_is_transfer_plus_gas (egld : Nat) (esdt : List (Bytes × Nat × Nat)) (gas : Nat) (tg : TransferAndGas)
+    (h : getTransferAndGasTokens egld esdt gas = some tg) (hx : esdt ≠ [] → egld = 0)
+    (hne : ∀ tok amt, esdt ≠ [(tok, 0, amt), (Generated.ESDT_EGLD_IDENTIFIER, 0, gas)]) (k : World.Asset) :
+    World.payAmt egld esdt k =
+      (if k = tg.transferToken then tg.transferAmount else 0) + (if k = tg.gasToken then tg.gasAmount else 0) := by
+  rcases (split_shapes egld esdt gas tg).mp h with ⟨rfl, hg, rfl⟩ | ⟨tok, amt, rfl, hg, rfl⟩ | ⟨tok, amt, tok2, rfl, rfl⟩
+  · simp only [World.payAmt, List.map_nil, List.sum_nil, Nat.add_zero]
+    by_cases hk : k = none
+    · simp [hk]; omega
+    · simp [hk]
+  · have he : egld = 0 := hx (by simp)
+    subst he
+    simp only [World.payAmt, List.map_cons, List.map_nil, List.sum_cons, List.sum_nil, esdtKey, if_true, Nat.add_zero]
+    by_cases hk : k = some tok
+    · subst hk; simp; omega
+    · cases k with
+      | none => simp
+      | some k' => simp [hk]
+  · have he : egld = 0 := hx (by simp)
+    subst he
+    have h2 : tok2 ≠ Generated.ESDT_EGLD_IDENTIFIER := fun e => hne tok amt (by rw [e])
+    simp only [World.payAmt, List.map_cons, List.map_nil, List.sum_cons, List.sum_nil, esdtKey, if_true, Nat.add_zero, h2, if_false]
+    cases k with
+    | none => simp
+    | some k' => simp
+
+/-- **The service's own balances are unchanged** by a successful outbound transfer: what it
+    received from the sender is exactly what it handed to the token manager and the gas service
+    (service ≠ sender, manager, gas service). -/
+theorem service_balances_unchanged (C : Crypto) (w w' : World) (sender its tid chain addr md gasB : Bytes)
+    (egld : Nat) (esdt : List (Bytes × Nat × Nat)) (rs : List Bytes) (evs : List Event) (pd : List PendDesc)
+    (tm : Bytes) (st : TokenManager.State) (htm : w.its.tmAddress tid = tm) (hst : w.tms tm = st)
+    (hk : w.kind its = some .its) (hktm : w.kind tm = some .tokenManager)
+    (hkgs : w.kind w.its.gasService = some .gasService) (hkgw : w.kind w.its.gateway = some .gateway)
+    (hx : esdt ≠ [] → egld = 0)
+    (hne : ∀ tok amt, esdt ≠ [(tok, 0, amt), (Generated.ESDT_EGLD_IDENTIFIER, 0, topBig gasB)])
+    (hs : its ≠ sender)
+    (h : World.tx C w sender its "interchainTransfer" egld esdt [tid, chain, addr, md, gasB] = (w', .ok rs evs pd))
+    (k : World.Asset) : World.balanceOf w' its k = World.balanceOf w its k := by
+  obtain ⟨tg, hsplit, _, _, hl⟩ := outbound_transaction_ledger C w w' sender its tid chain addr md gasB egld esdt rs evs pd
+    tm st htm hst hk hktm hkgs hkgw h
+  have hpay := payment_is_transfer_plus_gas egld esdt (topBig gasB) tg hsplit hx hne k
+  have hne1 : its ≠ tm := fun e => by rw [e] at hk; rw [hk] at hktm; cases hktm
+  have hne2 : its ≠ w.its.gasService := fun e => by rw [← e] at hkgs; rw [hk] at hkgs; cases hkgs
+  have := hl its k
+  simp only [World.plus, World.pt, takeIn, hs, hne2, if_false, if_true, true_and, false_and, hpay] at this
+  have hz : (if TokenManager.isMintBurnKind st.implType = true then World.nil
+      else World.pt tm (TokenManager.tokOfBytes st.tokenIdentifier) tg.transferAmount) its k = 0 := by
+    split
+    · rfl
+    · simp [World.pt, hne1]
+  rw [hz] at this
+  omega
 
 theorem egld_as_esdt_identifier :
     Generated.ESDT_EGLD_IDENTIFIER = [69, 71, 76, 68, 45, 48, 48, 48, 48, 48, 48] := by decide
